@@ -382,6 +382,12 @@ def build_world_ll():
     return w
 
 
+def verify_ordering_machinery(ctx):
+    """LinkedList and OrderedSet of debian._util under contract (shared by C09 and C10, whose order_* for paragraphs
+    without duplicated fields delegate to OrderedSet.order_*)"""
+    run_deductive(ctx)
+
+
 def run_deductive(ctx):
     w = build_world_ll()
     cs = [LLAppend(), LLInsertNodeBefore(), LLInsertNodeAfter(), LLRemoveNode(), LLInsertAtHead(), LLInsertBefore(),
